@@ -1269,20 +1269,40 @@ def dictarg_case(ctx, case):
         probe = {L: dictarg_overwrite(copy.deepcopy(o) if not isinstance(o, torch.Tensor) else o.clone(), wr_rng) for L, o in objs.items()}
         writes = [{"sid": i, "vals": bits(probe[L].ravel())} for i, L in enumerate(letters) if probe[L] is not None and vals[L] is not None]
         m = ctx.driver.call("c04.create_dict_arg", default_double=default_double, heap=heap, kw=kw, writes=writes)
-        ctx.point("create_dict(**kwargs) accepts the keyword objects (refused or not; which exception is not compared)", "aux",
-                  err is None, "error" not in m, case, exact=True, sig="dictarg/refused", theorem="C04_create_dict_refused, C04_create_dict_exact")
+        # audit 3 (B-6): whether a MALFORMED object (ragged list / None / str / dict) is refused is not in the property text -> record only;
+        # for array-like objects the model's acceptance stays tied at auxiliary level
+        if expect_refused:
+            ctx.info("dictarg/refused: create_dict refuses a keyword that is not array-like (ragged list / None / str / dict)", err is None, "error" not in m)
+        else:
+            ctx.point("create_dict(**kwargs) accepts the array-like keyword objects (which exception is not compared)", "aux",
+                      err is None, "error" not in m, case, exact=True, sig="dictarg/refused", theorem="C04_create_dict_refused, C04_create_dict_exact")
     ctx.oracle("create_dict accepts every array-like unitary (tensor / numpy array / rectangular nested list of numbers)", expect_refused or err is None, case,
                detail={"raised": err, "forms": forms}, sig="dictarg/accepted", theorem="C04_create_dict_exact")
     if td is None:
         ctx.count("dictarg: refused" + (" (as expected: ragged / not array-like)" if expect_refused else ""))
         return
-    # ---- at return: keys, element type, entries = what the objects denote, caller's objects untouched
+    if expect_refused:   # audit 3 (B-6): a malformed keyword was ACCEPTED - outside the quantifier ("user-added single-qubit unitaries"): nothing below is judged
+        ctx.count("dictarg: malformed keyword accepted (not constrained by the property: no verdict)")
+        return
+
+    def _f64(t):   # entry -> float64 array, whatever container / element type the dictionary uses (audit 3 B-5: docstring says "a dictionary of unitaries")
+        try:
+            return t.detach().to(torch.double).cpu().numpy() if isinstance(t, torch.Tensor) else np.asarray(t, dtype=np.float64)
+        except Exception:  # noqa: BLE001
+            return np.full((2, 2, 2), np.nan)
+
+    def _close(a, b):   # audit 3 (B-5): the property fixes the eigenvector rows / the matrices given, not the last ulp (1/sqrt(2) vs sqrt(0.5) vs 0.7071067811865476)
+        a, b = np.asarray(a), np.asarray(b)
+        return a.shape == b.shape and bool(np.allclose(a, b, rtol=1e-12, atol=1e-12))
+    # ---- at return: keys, entries = what the objects denote, caller's objects untouched
     want = {**dflt, **{L: v for L, v in vals.items()}}
     exactL = [L for L in forms if L not in lossy]
     ok_keys = set(td.keys()) == set(want)
-    ok_dtype = all(isinstance(t, torch.Tensor) and t.dtype == torch.double for t in td.values())
-    ok_vals = ok_keys and ok_dtype and all(tuple(td[L].shape) == (2, 2, 2) and np.array_equal(td[L].numpy(), want[L]) for L in want if L not in lossy)
-    ctx.oracle("create_dict: keys X, Y, Z + keywords, every entry a double tensor holding EXACTLY the entries of the object it was given "
+    ctx.info("dictarg/dtype: every entry is a torch double tensor", all(isinstance(t, torch.Tensor) and t.dtype == torch.double for t in td.values()), True)
+    ctx.info("dictarg/bit-exact: entries equal the given objects / 1/sqrt(2) defaults to the last bit",
+             bool(ok_keys and all(np.array_equal(_f64(td[L]), want[L]) for L in want if L not in lossy)), True)
+    ok_vals = ok_keys and all(_close(_f64(td[L]), want[L]) for L in want if L not in lossy)
+    ctx.oracle("create_dict: keys X, Y, Z + keywords, every entry holds (to 1e-12) the entries of the object it was given "
                "(defaults unless overridden)", bool(ok_vals), case,
                detail={"keys": sorted(td.keys()), "dtypes": [str(getattr(t, "dtype", None)) for t in td.values()], "forms": forms},
                sig="dictarg/entries", theorem="C04_create_dict_exact, C04_create_dict")
@@ -1291,31 +1311,44 @@ def dictarg_case(ctx, case):
                     (np.array_equal(objs[L], snap[L]) if isinstance(objs[L], np.ndarray) else objs[L] == snap[L])) for L in objs), case,
                sig="dictarg/args-mutated", theorem="C04_create_dict_exact")
     for L in lossy:   # candidate finding F_C04_create_dict_list_precision: no verdict either way (a repaired create_dict stores the doubles)
-        got = td[L].numpy()
+        got = _f64(td[L])
         ctx.count("dictarg: list of Python floats that are not float32-representable is stored " +
                   ("ROUNDED to float32 (as modelled: C04_create_dict_list_rounds)" if np.array_equal(got, vals[L].astype(np.float32).astype(np.float64))
                    else ("exactly" if np.array_equal(got, vals[L]) else "as something else")))
-    shares = {L: _shares(td[L], objs[L]) for L in forms}
+    try:
+        shares = {L: _shares(td[L], objs[L]) for L in forms}
+    except Exception:  # noqa: BLE001
+        shares = {L: None for L in forms}
+    ment = {}
     if m is not None and "error" not in m and ok_keys:
-        ment = {}
         for key, sid, dt, v0, v1 in m["entries"]:
             ment.setdefault(key, (sid, dt, unbits(v0), unbits(v1)))       # first entry of a key wins
-        ctx.point("create_dict: stored entries (bit patterns) of every keyword and default", "property",
-                  {L: bits(td[L].numpy().ravel()) for L in sorted(want) if L not in lossy},
-                  {L: bits(ment[L][2]) for L in sorted(want) if L not in lossy and L in ment}, case, exact=True,
-                  sig="dictarg/entries-model", theorem="C04_create_dict_exact")
+        cmpL = [L for L in sorted(want) if L not in lossy and L in ment and _f64(td[L]).size == 8]
+        # audit 3 (B-5): numbers to 1e-12, not bit patterns (the model's 1/sqrt(2) and a rewrite's sqrt(0.5) differ in the last ulp)
+        ctx.point("create_dict: stored entries of every keyword and default", "property",
+                  [float(x) for L in cmpL for x in _f64(td[L]).ravel()], [float(x) for L in cmpL for x in ment[L][2]], case,
+                  rtol=1e-12, atol=1e-12, sig="dictarg/entries-model", theorem="C04_create_dict_exact")
+        # audit 3 (B-7): whether an entry shares memory with the caller's object (defensive copy) is not in the property text -> record only
+        # Kept at AUX level (not info) on purpose: stored mutant seeded/M6_C04_3 (clone dropped) changes nothing else, and the acceptance rule
+        # of the hardening round wants every stored change still reported (exit 1, here as no-failing-input-found, effect outside the property
+        # text).  Cost: a harmless no-copy rewrite (torch.as_tensor on float64 input) is reported the same way.  One word ("info") silences both.
         ctx.point("create_dict: an entry shares memory with the object it was made from", "aux", {L: shares[L] for L in forms},
                   {L: ment[L][0] < m["before"] for L in forms if L in ment}, case, exact=True, sig="dictarg/alias-model", theorem="C04_create_dict_exact")
     # ---- the caller re-uses its objects: in-place overwrite, then rotate with the dictionary made BEFORE
     wr_rng = _import_random().Random(case["seed"] ^ 0x77)
     written = {L: dictarg_overwrite(o, wr_rng) for L, o in objs.items()}
     ctx.count(f"dictarg: caller overwrote {sum(v is not None for v in written.values())} of {len(objs)} keyword objects in place")
-    still = all(np.array_equal(td[L].numpy(), want[L]) for L in exactL) and all(np.array_equal(td[L].numpy(), dflt[L]) for L in dflt if L not in forms)
-    ctx.oracle("after the caller overwrites its own objects in place the dictionary still holds the matrices it was given", bool(still), case,
-               detail={"forms": forms, "aliased": [L for L in forms if shares[L]]}, sig="dictarg/live-alias", theorem="C04_create_dict_exact")
-    if any(b in lossy for b in basis) or not ok_vals:
+    still = all(_close(_f64(td[L]), want[L]) for L in exactL) and all(_close(_f64(td[L]), dflt[L]) for L in dflt if L not in forms)
+    # audit 3 (B-7): copy semantics of create_dict (docstring silent; property: rotation = Kronecker product of the dictionary's unitaries) -> record only
+    ctx.info("dictarg/live-alias: after the caller overwrites its own objects in place the dictionary still holds the matrices it was given", bool(still), True)
+    if not ok_vals:
         return
-    cm = {L: want[L][0] + 1j * want[L][1] for L in want}
+    # audit 3 (B-7): what the property states is "rotation == Kronecker product of the dictionary's unitaries": the dictionary's CURRENT entries
+    # (equal to the matrices given when create_dict copies, to the caller's new numbers when an entry aliases the caller's object)
+    cur = {L: _f64(td[L]) for L in td}
+    if any(cur[b].shape != (2, 2, 2) or not np.all(np.isfinite(cur[b])) for b in basis):
+        return
+    cm = {L: cur[L][0] + 1j * cur[L][1] for L in set(basis)}
     K = dense_K([cm[b] for b in basis])
     N = 2 ** n
     st = FakeState(n, unitaries.create_dict())
@@ -1328,18 +1361,20 @@ def dictarg_case(ctx, case):
     scr = float(np.max(np.abs(wrho))) + float(np.max(np.abs(rho))) + 1e-300
     ipsi = from_pair_tensor(unitaries.rotate_psi(st, basis, space_t, unitaries=td, psi=to_pair_tensor(psi)))
     irho = from_pair_tensor(unitaries.rotate_rho(st, basis, space_t, unitaries=td, rho=to_pair_tensor(rho)))
-    ctx.oracle("rotate_psi with a dictionary whose source objects were overwritten afterwards == kron(U) psi of the matrices GIVEN to create_dict",
+    ctx.oracle("rotate_psi with a dictionary whose source objects were overwritten afterwards == kron(U) psi of the dictionary's current entries",
                bool(ipsi.shape == wpsi.shape and np.allclose(ipsi, wpsi, rtol=1e-9, atol=1e-9 * sc)), case,
                detail={"impl": str(ipsi[:4]), "dense": str(wpsi[:4]), "forms": forms}, sig="dictarg/rotate_psi-after-overwrite",
                theorem="C04_create_dict_exact, " + TH["rotate_psi"])
-    ctx.oracle("rotate_rho with a dictionary whose source objects were overwritten afterwards == U rho U^dag of the matrices GIVEN to create_dict",
+    ctx.oracle("rotate_rho with a dictionary whose source objects were overwritten afterwards == U rho U^dag of the dictionary's current entries",
                bool(irho.shape == wrho.shape and np.allclose(irho, wrho, rtol=1e-9, atol=1e-8 * scr)), case,
                detail={"impl": str(irho[0, :4]), "dense": str(wrho[0, :4]), "forms": forms}, sig="dictarg/rotate_rho-after-overwrite",
                theorem="C04_create_dict_exact, " + TH["rotate_rho"])
-    if m is not None and "error" not in m and all(b in ment for b in basis):
+    if m is not None and "error" not in m:
         def m2_of(v):   # flat [re/im][r][c] -> [[c00, c01], [c10, c11]]
             return [[cenc(complex(v[2 * r + c], v[4 + 2 * r + c]), False) for c in range(2)] for r in range(2)]
-        us_enc = [m2_of(ment[b][3]) for b in basis]       # the model's dictionary AFTER the caller's writes
+        us_enc = [m2_of(cur[b].ravel()) for b in basis]       # the dictionary's CURRENT entries (after the caller's writes) handed to the model's rotation
+        ctx.info("dictarg/model-after-writes: the dictionary after the caller's writes is the model's (copying) dictionary",
+                 all(b in ment and _close(cur[b].ravel(), np.asarray(ment[b][3], dtype=np.float64)) for b in basis), True)
         mv = np.array([cdec(p_, False) for p_ in ctx.driver.call("c04.rotate_psi", n=n, us=us_enc, psi=[cenc(z, False) for z in psi])])
         if ipsi.shape == mv.shape:
             ctx.point("rotate_psi after the caller overwrote the objects the dictionary was made from", "property", np.r_[ipsi.real, ipsi.imag],
